@@ -24,6 +24,19 @@ API
     expression under the SPEC grouping), stmts, valid.
 `match_cst(case, harness_line) -> list[str]`
     compares the line printed by `oq3-run tree` for `case["text"]` with the expectation; [] = match.
+`match_ast(case, ast_line) -> list[str]`
+    the same for the typed AST dump of `oq3-run ast` (every field = what one accessor returned, see
+    /verif/harness/src/m_ast.rs): the dump is converted to the entry form (expressions to the list
+    trees, ParenExpr = ["paren", e]) and compared structurally; additionally `value()` of integer /
+    float literals, `str()` of bit strings and `time_unit()` of timing literals are checked against
+    the literal text.  Array types/literals, old-style declarations and LetStmt are opaque in the dump.
+    `KNOWN_CAUSES_AST` / `attribute_ast(case)`: KNOWN_CAUSES (a CST defect shows in the AST too) plus
+      F07_if_then_stmt_else_block   `if (c) a = 1; else { b = 2; }`  true body = the else block, false
+                                    body = the then statement (swapped)
+      F07_if_then_stmt_else_stmt    `if (c) a = 1; else b = 2;` (also else-if)  both bodies = `a = 1;`
+      F07_if_then_stmt_no_else      `if (c) a = 1;`  acquires a false body equal to the then statement
+      assign_indexed_lhs_identifier_rhs  `a[0] = b;`  AssignmentStmt::identifier() (first IDENTIFIER
+                                    child) returns the RHS `b`, which the semantic pass takes as LHS
 `KNOWN_CAUSES`, `attribute(case) -> list[str]`
     cause id -> predicate over a generated case: "this case is expected to mismatch on the unchanged
     parser because of this cause".  Predicates only look at the expected structure.
@@ -2390,13 +2403,54 @@ def coverage(cases):
     return kinds, ops
 
 
-def self_check(seed, n, depth=4, verbose=True):
-    cases = gen_ref_programs(seed, n, depth) + operator_pair_cases()
-    lines = run_harness([c["text"] for c in cases])
+def _role_coverage(cases):
+    """the shapes C05 asks for: range arity per position, chained index operators per base kind,
+    if/else body combinations"""
+    out = {}
+
+    def bump(k):
+        out[k] = out.get(k, 0) + 1
+
+    def chain(e):
+        n = 0
+        while _is(e, "index", 3):
+            n += 1
+            e = e[1]
+        return n, e
+    for c in cases:
+        for e in _all_entries(c):
+            a = e["ast"]
+            if e["kind"] == "FOR_STMT":
+                it = a["iterable"]
+                if it[0] == "range":
+                    bump("for-iterable range/%d" % (3 if it[2] is not None else 2))
+                else:
+                    bump("for-iterable " + ("slice" if it[0] == "index" else it[0]))
+            elif e["kind"] == "IF_STMT":
+                els = "none" if a["else"] is None else (
+                    "block" if a["else_block"] else ("else-if" if a["else"][-1]["kind"] == "IF_STMT" else "stmt"))
+                bump("if then=%s else=%s" % ("block" if a["then_block"] else "stmt", els))
+        seen = set()
+        for x in _walk(c["stmts"]):
+            if _is(x, "index", 3) and id(x) not in seen:
+                n, base = chain(x)
+                y = x
+                while _is(y, "index", 3):
+                    seen.add(id(y))
+                    y = y[1]
+                bump("index chain x%d on %s" % (min(n, 3), base[0] if isinstance(base, list) else "?"))
+            if _is(x, "index", 3):
+                for it in x[2]:
+                    if _is(it, "range", 4):
+                        bump("index item range/%d" % (3 if it[2] is not None else 2))
+    return out
+
+
+def _tally(cases, lines, match, attr):
     ok, residual, unexplained, over = 0, {}, [], []
     for c, l in zip(cases, lines):
-        m = match_cst(c, l)
-        causes = attribute(c)
+        m = match(c, l)
+        causes = attr(c)
         if not m:
             ok += 1
             if causes:
@@ -2406,32 +2460,51 @@ def self_check(seed, n, depth=4, verbose=True):
                 residual.setdefault(cid, []).append(c)
         else:
             unexplained.append((c, m))
+    return {"cases": len(cases), "ok": ok, "residual": residual, "unexplained": unexplained, "over": over}
+
+
+def _print_tally(title, r, causes):
+    print("%s: cases %d, matched %d" % (title, r["cases"], r["ok"]))
+    print("  attributed per cause (a case may have several causes):")
+    for cid in causes:
+        xs = r["residual"].get(cid, [])
+        print("    %-36s %d" % (cid, len(xs)))
+        for c in sorted(xs, key=lambda c: len(c["text"]))[:2]:
+            print("        %r" % c["text"][:160])
+    print("  mismatching with NO matching cause: %d" % len(r["unexplained"]))
+    for c, m in sorted(r["unexplained"], key=lambda cm: len(cm[0]["text"]))[:10]:
+        print("        %r\n           %s" % (c["text"][:300], m[:2]))
+    print("  flagged by a cause but matching (over-attribution): %d" % len(r["over"]))
+    for c, cs in sorted(r["over"], key=lambda cc: len(cc[0]["text"]))[:10]:
+        print("        %s %r" % (cs, c["text"][:200]))
+
+
+def self_check(seed, n, depth=4, verbose=True, ast=True):
+    """generate, run the real front end, match; returns the CST tally with the AST tally under "ast".
+    On the unchanged tree both `unexplained` lists are empty."""
+    cases = gen_ref_programs(seed, n, depth) + operator_pair_cases()
+    texts = [c["text"] for c in cases]
+    r = _tally(cases, run_harness(texts), match_cst, attribute)
+    r["ast"] = _tally(cases, run_harness(texts, mode="ast"), match_ast, attribute_ast) if ast else None
     if verbose:
         kinds, ops = coverage(cases[:n])
         print("cases: %d (%d programs + %d operator cases)" % (len(cases), n, len(cases) - n))
-        print("accepted and matching: %d" % ok)
         print("statement kinds:")
         for k in sorted(kinds):
             print("  %-45s %d" % (k, kinds[k]))
         print("operators / expression forms:")
         print("  " + "  ".join("%s:%d" % (k, ops[k]) for k in sorted(ops)))
-        print("residual by cause (a case may have several causes):")
-        for cid in KNOWN_CAUSES:
-            xs = residual.get(cid, [])
-            print("  %-32s %d" % (cid, len(xs)))
-            for c in sorted(xs, key=lambda c: len(c["text"]))[:2]:
-                print("      %r" % c["text"][:160])
-        print("mismatching with NO matching cause: %d" % len(unexplained))
-        for c, m in sorted(unexplained, key=lambda cm: len(cm[0]["text"]))[:10]:
-            print("      %r\n         %s" % (c["text"][:300], m[:2]))
-        print("flagged by a cause but matching (over-attribution): %d" % len(over))
-        for c, causes in sorted(over, key=lambda cc: len(cc[0]["text"]))[:10]:
-            print("      %s %r" % (causes, c["text"][:200]))
-    return {"cases": len(cases), "ok": ok, "residual": residual, "unexplained": unexplained, "over": over}
+        roles = _role_coverage(cases[:n])
+        print("role shapes:")
+        print("  " + "  ".join("[%s]:%d" % (k, roles[k]) for k in sorted(roles)))
+        _print_tally("CST (match_cst, accepted without diagnostics and structure as expected)", r, KNOWN_CAUSES)
+        if ast:
+            _print_tally("typed AST (match_ast, accessor roles)", r["ast"], KNOWN_CAUSES_AST)
+    return r
 
 
 if __name__ == "__main__":
     _seed = int(sys.argv[1]) if len(sys.argv) > 1 else 1
     _n = int(sys.argv[2]) if len(sys.argv) > 2 else 2000
     _r = self_check(_seed, _n)
-    sys.exit(0 if not _r["unexplained"] else 1)
+    sys.exit(0 if not _r["unexplained"] and not _r["ast"]["unexplained"] else 1)
